@@ -31,6 +31,7 @@ LEVEL_TEXT = (
     "pairs for the binary operations) is compared with the gapped string; FeatureMap algebra is compared with a "
     "position-list model on seeded random maps. Exhaustive inside the bound, sampled outside it."
     " Map composition is also driven with spans that overhang the composed map at the front, the back or both."
+    " Layouts are also placed beyond 2**31 / 2**32 on chromosome-sized sequences; FeatureMap slices take Python-style bounds."
 )
 LEVEL_NOTE = "held = held on the executions listed in the evidence; trusted: Python str/list semantics, parse_out_gaps as constructor"
 TECHNIQUE = "runtime monitoring: boundary recorder + executable string/list model, exhaustive small-scope enumeration"
